@@ -54,6 +54,9 @@ _SEED = 0
 _CHECK_ONLY = False  # final level of a depth-bounded run: evaluate state invariants, do not expand
 
 
+EARLY_STOP_S = float(os.environ.get("EGMC_EARLY_STOP_S", "150"))
+
+
 def build(system, hist):
     # class-level library state is reset first: a world replayed from its history must not depend on
     # what ran before in this process (the objects of any world built earlier stay usable for
@@ -221,6 +224,13 @@ def explore(system, *, seed=0, workers=None, max_states=None, time_cap=None, log
                 res.exhaustive = False
                 res.cap = f"time cap {time_cap}s hit with {len(frontier)} states of depth {res.depth} unexpanded"
                 break
+            if res.viols and time.time() - t0 > EARLY_STOP_S:
+                # violations are already in hand and the pool is taking long (a faulty library often has a
+                # much larger, or unbounded, state space): report now rather than at the deadline
+                res.exhaustive = False
+                res.cap = (f"stopped after {EARLY_STOP_S}s with violations found; {len(frontier)} states of "
+                           f"depth {res.depth} unexpanded")
+                break
             if max_states is not None and len(seen) > max_states:
                 res.exhaustive = False
                 res.cap = f"state cap {max_states} hit with {len(frontier)} states of depth {res.depth} unexpanded"
@@ -228,7 +238,9 @@ def explore(system, *, seed=0, workers=None, max_states=None, time_cap=None, log
             res.levels.append(len(frontier))
             heavy = getattr(system, "heavy_states", False)     # expensive per-state checks: shard finely
             if len(frontier) < (2 if heavy else 24) or workers == 1:
-                results = [_expand_chunk(frontier)]
+                # in-process, in slices: the time cap is looked at after every slice
+                step = 1 if heavy else 50
+                results = (_expand_chunk(frontier[i:i + step]) for i in range(0, len(frontier), step))
             else:
                 if pool is None:
                     pool = multiprocessing.get_context("fork").Pool(workers)
@@ -240,10 +252,16 @@ def explore(system, *, seed=0, workers=None, max_states=None, time_cap=None, log
                 if nmis:
                     MISMATCHES["count"] += nmis
                     MISMATCHES["examples"] = (MISMATCHES["examples"] + mis_ex)[:3]
-                if time_cap is not None and time.time() - t0 > time_cap and res.exhaustive:
+                over = time_cap is not None and time.time() - t0 > time_cap
+                early = bool(res.viols or viols) and time.time() - t0 > EARLY_STOP_S
+                if (over or early) and res.exhaustive:
                     res.exhaustive = False
-                    res.cap = (f"time cap {time_cap}s hit while expanding depth {res.depth} "
+                    res.cap = ((f"time cap {time_cap}s hit" if over else
+                                f"stopped after {EARLY_STOP_S}s with violations found") +
+                               f" while expanding depth {res.depth} "
                                f"({len(frontier)} states in that level; levels below it are complete)")
+                    for fp, (n, rec) in viols.items():
+                        res.viols.setdefault(fp, [n, rec])
                     if pool is not None:
                         pool.terminate()
                         pool.join()
